@@ -76,8 +76,10 @@ def gen_solution(rng, seg):
         g.add_node(nid, time=t, seg_id=l)
     order = list(g.nodes)
     rng.shuffle(order)
+    maxdeg = 3 if rng.random() < 0.2 else 2
     for v in order:
-        cands = [u for u in g.nodes if g.nodes[u]["time"] < g.nodes[v]["time"] and g.out_degree(u) < 2]
+        # mostly binary forests; one case in five allows a third child (a division is "more than one child")
+        cands = [u for u in g.nodes if g.nodes[u]["time"] < g.nodes[v]["time"] and g.out_degree(u) < maxdeg]
         if cands and rng.random() < 0.75:
             g.add_edge(rng.choice(cands), v)
     return g
